@@ -184,7 +184,15 @@ def dispatch_part(ctx, sc, rnd, jobs, labels, picked):
     W = 10
     nev = sum(len(t['ev']) for t in traces) // W
     # self-tests: a trace of a successful nested decode, corrupted in several ways
-    base = next(t for t in traces if t['ev'][-W + 2] == 1 and t['ev'].count(6) and len(t['ev']) >= W * 12)
+    def suitable(t):
+        e = t['ev']
+        kinds = [e[i] for i in range(0, len(e), W)]
+        return (e[-W + 2] == 1 and kinds.count(1) >= 2 and kinds.count(5) >= 2 and
+                any(e[i] == 3 and e[i + 2] == 6 for i in range(0, len(e), W)) and
+                any(e[i] == 3 and e[i + 2] == 2 for i in range(0, len(e), W)))
+    base = next((t for t in traces if suitable(t)), None)
+    if base is None:
+        raise core.Machinery('no recorded decoder run is suitable for the dispatch self-tests')
     ev = base['ev']
     rows = range(0, len(ev), W)
     vi = next(i for i in rows if ev[i] == 3 and ev[i + 2] == 6)
